@@ -134,7 +134,15 @@ fn paths_over(pool: &'static [&'static str], depth: usize) -> Vec<Vec<&'static s
 /// Names that are different components although they look alike: letter case, composed and
 /// decomposed accents. 84 x 84 paths of 1..3 components x {absolute, relative} x {'/', '\\'}.
 fn exhaustive_lookalikes(_t: Tier) -> Box<dyn Iterator<Item = Case>> {
-    let paths = paths_over(&["a", "A", "é", "e\u{301}"], 3);
+    all_pairs(paths_over(&["a", "A", "é", "e\u{301}"], 3))
+}
+
+/// Names that begin or end with dots (hidden files and directories) without being `.` or `..`.
+fn exhaustive_dot_names(_t: Tier) -> Box<dyn Iterator<Item = Case>> {
+    all_pairs(paths_over(&["a", ".a", "..a", "a."], 3))
+}
+
+fn all_pairs(paths: Vec<Vec<&'static str>>) -> Box<dyn Iterator<Item = Case>> {
     let mut pairs: Vec<(usize, usize)> = (0..paths.len()).flat_map(|b| (0..paths.len()).map(move |t| (b, t))).collect();
     pairs.sort_by_key(|&(b, t)| paths[b].len() + paths[t].len());
     Box::new(pairs.into_iter().flat_map(move |(b, t)| {
@@ -165,7 +173,7 @@ fn exhaustive(_t: Tier) -> Box<dyn Iterator<Item = Case>> {
 /// Pairs of 1..=6 components from a six-name pool, every separator (the leading one too) drawn
 /// independently; half of the pairs are built around a shared prefix of 1..=3 components.
 fn random(_t: Tier) -> BoxedStrategy<Case> {
-    let name = || select(vec!["a", "b", "c", "d", "x.js", "y.map", "ab", "a.js", "x", "x.j", "A", "X.JS", "é", "e\u{301}", "a.", "可是呢", "抽屜", "į", "Ŝx", "是"]);
+    let name = || select(vec!["a", "b", "c", "d", "x.js", "y.map", "ab", "a.js", "x", "x.j", "A", "X.JS", "é", "e\u{301}", "a.", "可是呢", "抽屜", "į", "Ŝx", "是", ".maps", ".a", "..b", "...", ".a.", "-", "~", "a b", "a:b"]);
     let independent = (vec(name(), 1..=6), vec(name(), 1..=6));
     let related = (vec(name(), 1..=3), vec(name(), 0..=5), vec(name(), 0..=3)).prop_map(|(shared, b, t)| {
         let mut base = [shared.clone(), b].concat();
@@ -204,6 +212,7 @@ fn subs() -> Vec<Sub> {
     vec![
         exhaustive,
         enum_sub("exhaustive_lookalikes", exhaustive_lookalikes, check),
+        enum_sub("exhaustive_dot_names", exhaustive_dot_names, check),
         gen_sub("random", random, |t| t.pick(300_000, 1_000_000), check),
     ]
 }
@@ -213,7 +222,7 @@ pub const DEF: PropertyDef = PropertyDef {
     rule: "exhaustive: every base path x target path of 1..4 components over {a,b,c} x {both absolute, both relative} \
            x separator '/' or '\\' (57 600 pairs). random: proptest pairs of 1..6 components from {a,b,c,d,x.js,y.map,ab,a.js,x,x.j} (names that are prefixes of one another) \
            with mixed separators, half of them around a shared prefix (the cell remaining=0,climb=3+ needs a base of \
-           at least 5 components and is reached by random only). exhaustive_lookalikes: paths over {a, A, e-acute composed, e-acute decomposed}. Non-trivial = at least 2 target components \
+           at least 5 components and is reached by random only). exhaustive_dot_names: every pair of paths of 1..3 components over {a, .a, ..a, a.}. exhaustive_lookalikes: paths over {a, A, e-acute composed, e-acute decomposed}. Non-trivial = at least 2 target components \
            remain after the prefix shared with the base directory, or at least 2 levels must be climbed",
     assumptions: &[
         "components are ordinary names (never '.', '..' or empty) and both paths are of the same kind (the statement's precondition)",
